@@ -26,6 +26,7 @@ def run(ck):
     ck.not_decided = ["uniqueness of the matched move and rejection of illegal spellings over all positions and spellings"]
     ck.run_rule(q1_q4_q5_scanner)
     ck.run_rule(q2_uci_promotion)
+    ck.run_rule(q7_uci_query)
     ck.run_rule(q3_query_matching)
     ck.run_rule(q6_writers)
 
@@ -186,10 +187,105 @@ def q2_uci_promotion(ck):
                         for cnd, tk in g:
                             if isinstance(tk, int) and not isinstance(tk, bool) and 32 <= tk < 127:
                                 found[chr(tk)] = pv
+        # second form: set_promotion(query, Piece::X) called directly under the character test
+        for bb, t in live_calls(c, names=(MQ + "set_promotion",)):
+            v = tb.operand(t["args"][1])
+            pv = variant_name(v)
+            if pv in letters:
+                for cnd, tk in guards_of(prog, c, bb, tb):
+                    if isinstance(tk, int) and not isinstance(tk, bool) and 32 <= tk < 127:
+                        found[chr(tk)] = pv
     ck.floor("Q2", len(found), 4, "UCI promotion letters")
     for ch, pv in sorted(found.items()):
         ck.req(letters.get(pv, "").lower() == ch, "Q2.letter", "'%s'" % ch, "", "UCI letter '%s' selects %s, whose writer letter is '%s'" % (ch, pv, letters.get(pv, "?").lower()), "'%s' -> %s" % (ch, pv))
     ck.req(set(found.values()) == {"Queen", "Rook", "Bishop", "Knight"}, "Q2.complete", "uci promotions", "", "UCI promotion letters cover %s" % sorted(found.values()))
+
+
+def q7_uci_query(ck):
+    """The coordinate token -> MoveQuery conversion of `position ... moves`: on every path that yields a query, the query was
+    given the origin parsed from characters 0..2 and the destination parsed from characters 2..4; no MoveQuery constructor or
+    setter other than new / by_moving_from_to / set_origin / set_destination / set_promotion takes part (a castle, piece or
+    capture constraint is not in the token and would select a different move or none)."""
+    prog = ck.prog
+    ex = "weechess_engine::uci::Client::exec"
+    conv = []
+    for cn in prog.closures_of(ex):
+        c = prog.body(cn)
+        if "MoveQuery" in c.local_ty(0) and "Option<" in c.local_ty(0):
+            conv.append(c)
+    ck.req(len(conv) == 1, "Q7.converter", "uci", "", "expected one closure of Client::exec producing Option<MoveQuery>, found %d" % len(conv))
+    if len(conv) != 1:
+        return
+    c = conv[0]
+    tb = TermBuilder(prog, c)
+    allowed = {"new", "by_moving_from_to", "set_origin", "set_destination", "set_promotion"}
+    used = {}
+    org, dst = [], []
+
+    def from_chars(t, lo, hi):
+        # Square::try_from(get(token, lo..hi)) possibly through `?` (Try::branch / Option::ok)
+        for x in walk(t):
+            if x[0] == "call" and x[1].endswith("::get") and len(x[2]) == 2:
+                r = x[2][1]
+                if r[0] == "agg" and "Range" in str(r[1]) and len(r[2]) == 2 and const_value(r[2][0]) == lo and const_value(r[2][1]) == hi:
+                    return any(y[0] == "call" and "TryFrom<&str>>::try_from" in y[1] and "Square" in y[1] for y in walk(t))
+        return False
+    for bb, t in live_calls(c):
+        n = callee_name(t)
+        if n.startswith(MQ):
+            m = n[len(MQ):]
+            used.setdefault(m, []).append(bb)
+            a = [tb.operand(x) for x in t["args"]]
+            if m == "set_origin":
+                ck.req(from_chars(a[1], 0, 2), "Q7.origin", "set_origin", c.where(t["line"]), "the query's origin is %s, not the square spelled by characters 0..2 of the token" % show(a[1])[:80])
+                org.append(bb)
+            elif m == "set_destination":
+                ck.req(from_chars(a[1], 2, 4), "Q7.destination", "set_destination", c.where(t["line"]),
+                       "the query's destination is %s, not the square spelled by characters 2..4 of the token" % show(a[1])[:80])
+                dst.append(bb)
+            elif m == "by_moving_from_to":
+                ck.req(from_chars(a[0], 0, 2) and from_chars(a[1], 2, 4), "Q7.origin", "by_moving_from_to", c.where(t["line"]),
+                       "by_moving_from_to is not given (characters 0..2, characters 2..4)")
+                org.append(bb)
+                dst.append(bb)
+    extra = sorted(set(used) - allowed)
+    ck.req(not extra, "Q7.only_token_fields", "uci", c.where(), "the query built from a coordinate token is also constrained through MoveQuery::%s, which the token does not spell" % extra)
+    somes = []
+    rets = {0}      # the return place and locals moved into it as a whole (return values of spliced-in helpers)
+    grew = True
+    while grew:
+        grew = False
+        for blk in c.blocks:
+            for s_ in blk["stmts"]:
+                if s_["k"] == "assign" and not s_["place"]["p"] and s_["place"]["l"] in rets and "use" in s_["rv"]:
+                    q = s_["rv"]["use"].get("move") or s_["rv"]["use"].get("copy")
+                    if q is not None and not q["p"] and q["l"] not in rets:
+                        rets.add(q["l"])
+                        grew = True
+    for bb, blk in enumerate(c.blocks):
+        if blk.get("cleanup"):
+            continue
+        for s_ in blk["stmts"]:
+            if s_["k"] == "assign" and not s_["place"]["p"] and s_["place"]["l"] in rets and "agg" in s_["rv"] and s_["rv"]["agg"].get("variant") == "Some":
+                somes.append(bb)
+    ck.floor("Q7", len(somes), 1, "paths of the converter that yield a query")
+    ck.req(bool(org) and cfg.must_pass(c, [0], somes, org), "Q7.always_origin", "uci", c.where(), "a query can be produced without the origin square having been set")
+    ck.req(bool(dst) and cfg.must_pass(c, [0], somes, dst), "Q7.always_destination", "uci", c.where(), "a query can be produced without the destination square having been set")
+    # set_origin / set_destination store rank and file of their argument in the like-named fields
+    for m, fields in (("set_origin", ("origin_rank", "origin_file")), ("set_destination", ("dest_rank", "dest_file"))):
+        b = ck.body(MQ + m, "Q7")
+        tbb = TermBuilder(prog, b)
+        got = {}
+        for blk in b.blocks:
+            for s_ in blk["stmts"]:
+                if s_["k"] == "assign" and s_["place"]["p"] and s_["place"]["p"][0] == "*":
+                    f = [e["f"] for e in s_["place"]["p"] if isinstance(e, dict) and "f" in e]
+                    if f:
+                        got[f[0]] = tbb.rvalue(s_["rv"])
+        for f, acc in zip(fields, ("Square::rank", "Square::file")):
+            v = got.get(f)
+            ok = v is not None and v[0] == "agg" and str(v[1]).endswith("Some") and is_call(v[2][0], acc) and v[2][0][2][0] == ("param", 2)
+            ck.req(ok, "Q7.setter", "%s.%s" % (m, f), b.where(), "%s does not store Some(square.%s()) in %s" % (m, acc.split("::")[-1], f))
 
 
 FIELD_ATTR = {
